@@ -402,6 +402,8 @@ class _ConfirmOnly:
             else:
                 self.unrecognised.append(f"{rule}::{instance}")
         return cond
+    def anchor(self, cond, rule, instance, **k):
+        return self.check(cond, rule, instance, **k)
     def ok(self, rule, instance, **k):
         if rule in self.keep: self.chk.ok(rule, 'structural::' + instance, **k)
     def violation(self, rule, instance, **k):
